@@ -80,7 +80,9 @@ def run(tier):
              'StaticLmtpRelay, pool size 1, 2, 3 or unbounded, idle timeout none or 5, PIPELINING on/off, each of up to six '
              'connections following a script (all fine, end-of-data 4xx, MAIL 5xx, disconnect at DATA or in a later '
              'transaction, stall until the timeout, 421 banner, all recipients refused, refused connection ...); time is '
-             'advanced past every timeout at the end; non-trivial = more than one connection opened or a connection reused',
+             'advanced past every timeout at the end; directed family: a transaction refused at MAIL, RCPT, DATA or end-of-data '
+             '(4xx/5xx) followed by two more messages on the same reused connection, SMTP/LMTP, PIPELINING on/off; each result is '
+             'compared with what the downstream answered to that request\'s own transaction; non-trivial = more than one connection opened or a connection reused',
         trigger=lambda tr: sum(1 for e in tr['ev'] if e['t'] == 'conn' and e['what'] == 'open') > 1
         or any(e['t'] == 'peer' and e.get('trans', 0) >= 1 for e in tr['ev']),
         assumptions=['open connections are counted on the relay side (sockets handed out by socket_creator and not yet closed)',
